@@ -140,7 +140,7 @@ def all_points(only=None):
         for f in sorted(fs):
             p = os.path.join(d, f)
             rel = os.path.relpath(p, SRC)
-            if not f.endswith(".py") or rel.endswith(SKIP_FILES) or (only and only not in rel):
+            if not f.endswith(".py") or rel.endswith(SKIP_FILES) or (only and not any(o in rel for o in only.split(","))):
                 continue
             pts += points_of(rel, open(p, encoding="utf-8").read())
     return pts
